@@ -840,6 +840,16 @@ func runC02(c *Ctx) {
 			if fromIn[f] {
 				o.Fail(in.Pos(), "mapping.expires is written in %s, which is reachable from the inbound translation: inbound traffic alone prolongs a mapping", fname(f))
 			}
+			// the new expiry is one lifetime from now (not from the old expiry: a burst would bank lifetimes)
+			okVal := false
+			if add, ok := origin(in.(*ssa.Store).Val).(*ssa.Call); ok && callName(add) == "(time.Time).Add" {
+				now, isNow := origin(add.Call.Args[0]).(*ssa.Call)
+				fr, isLT := asFieldLoad(add.Call.Args[1])
+				okVal = isNow && callName(now) == "time.Now" && isLT && fr.Field == "MappingLifeTime"
+			}
+			if !okVal {
+				o.Fail(in.Pos(), "mapping.expires is not set to time.Now().Add(MappingLifeTime): the idle timer of the mapping is not restarted from the moment of the outbound datagram")
+			}
 		}
 	}
 	// outbound reuse refreshes: the lookup helper refreshes before returning a live mapping, or the caller does on the found edge
